@@ -258,15 +258,17 @@ def temperatures(ctx, env):
     n = 400 if ctx.tier == "quick" else 40000
     prefix_names = [None, None, None, "kilo", "milli", "micro", "mega"]
 
-    def make():
+    def make(same_reading_as=None):
         scale, pfx = rng.choice(c10.SCALES), rng.choice(prefix_names)
-        mag = rng.choice([0, 1, -10, 100, -40, 37.5, 273.15, -273.15, 300, 5, -459.67, 491.67, rng.uniform(-500, 3000), rng.randint(-300, 1000)])
+        mag = same_reading_as if same_reading_as is not None else rng.choice([0, 0.0, 1, -10, 100, -40, 37.5, 273.15, -273.15, 300, 5, -459.67, 491.67, rng.uniform(-500, 3000), rng.randint(-300, 1000)])
         unit = U[scale] if pfx is None else P[pfx] * U[scale]
         pv = Fraction(1) if pfx is None else oracle.prefix_value(P[pfx])
         return Q(mag, unit), c10.to_kelvin(scale, oracle.F(mag) * pv)
 
     for _ in range(n):
         items = [make() for _ in range(rng.randint(2, 6))]
+        if rng.random() < 0.25:
+            items[1] = make(same_reading_as=items[0][0].magnitude)  # the same reading on (usually) another scale
         (a, ka), (b, kb) = items[0], items[1]
         ctx.count("evaluations")
         ctx.count("pairs/Q-Q/temperature_scales")
